@@ -122,8 +122,11 @@ type C17Scenario struct {
 	ShowDups    bool               `json:"show_dups"`
 	PerPage     int                `json:"per_page"` // page size of the platform's listings (GitLab paginates discussions)
 	MRs         int                `json:"mrs"`      // GitLab: open merge requests of the branch (each one is a destination)
-	Base        []c17File          `json:"base"`     // content of main
-	Rounds      []c17Round         `json:"rounds"`
+	// OtherFiles: the pull request also changes that many files pint has nothing to say about (docs, code);
+	// they come first in the platform's file listing
+	OtherFiles int        `json:"other_files,omitempty"`
+	Base       []c17File  `json:"base"` // content of main
+	Rounds     []c17Round `json:"rounds"`
 }
 
 func drawC17File(rt *rapid.T, path string, minRules int) c17File {
@@ -155,6 +158,9 @@ func drawC17(rt *rapid.T) C17Scenario {
 		sc.Base = append(sc.Base, drawC17File(rt, paths[i], 0))
 	}
 	sc.Sched = detsim.DrawSched(rt, 40)
+	if rapid.IntRange(0, 5).Draw(rt, "bigpr") == 0 {
+		sc.OtherFiles = rapid.IntRange(25, 45).Draw(rt, "otherfiles")
+	}
 	nr := rapid.IntRange(1, detsim.Scale(5, 8)).Draw(rt, "rounds")
 	faulty := rapid.IntRange(0, 9).Draw(rt, "faulty") >= 4
 	for r := 0; r < nr; r++ {
@@ -413,7 +419,11 @@ func runC17(t *testing.T, sc C17Scenario, record bool) *detsim.Outcome {
 		if len(files) == 0 {
 			continue // nothing differs from the base branch: no pull request to comment on
 		}
-		forge.Files, forge.Head, forge.Base = files, head, base
+		var listed []simforge.File
+		for i := 0; i < sc.OtherFiles; i++ {
+			listed = append(listed, simforge.File{Path: fmt.Sprintf("docs/page%02d.md", i), Patch: "@@ -1 +1 @@\n-old\n+new"})
+		}
+		forge.Files, forge.Head, forge.Base = append(listed, files...), head, base
 		modified := map[string]map[int]bool{}
 		for _, f := range files {
 			modified[f.Path] = map[int]bool{}
